@@ -419,9 +419,26 @@ def a2(facts, tier):
         if h is None:
             continue
         kinds = set()
-        for x in calls(h["body"]):
-            if (callee(x) or "").endswith("downcast_ref"):
-                kinds |= set(x.get("targs", []))
+        # the entry function and the local helpers / closures it reaches (a helper that renders the payload counts)
+        todo, seen_ = [h], set()
+        while todo:
+            g = todo.pop()
+            if g["id"] in seen_ or not g.get("body"):
+                continue
+            seen_.add(g["id"])
+            for x in walk(g["body"]):
+                if x.get("k") == "Call":
+                    if (callee(x) or "").endswith("downcast_ref"):
+                        kinds |= set(x.get("targs", []))
+                    t = (x.get("res") or {}).get("fn") or x.get("fn")
+                    if t in facts.fns and facts.fns[t]["crate"] == "savefile_abi":
+                        todo.append(facts.fns[t])
+                    for a_ in x.get("args", []):
+                        pa = peel(a_)
+                        if pa.get("k") == "Zst" and pa.get("fn") in facts.fns and facts.fns[pa["fn"]]["crate"] == "savefile_abi":
+                            todo.append(facts.fns[pa["fn"]])
+                        if pa.get("k") == "Closure" and pa.get("id") in facts.fns:
+                            todo.append(facts.fns[pa["id"]])
         key = hid.split("::")[-1]
         need = {"&str", "alloc::string::String"}
         missing = {k for k in need if not any(k == t or (k == "&str" and t.startswith("&") and t.endswith("str")) for t in kinds)}
@@ -891,3 +908,168 @@ def n6(facts, tier):
                      f"the {kind} helper interface generated inside {tname} declares version {hv} although the enclosing interface is at "
                      f"version {tv}: values crossing through it (closure arguments/results, future outputs) are transmitted in the version "
                      f"{hv} format even when both sides negotiated {tv} - fields added later arrive as their defaults")
+
+
+
+@rule("A7", ["C09"], floor=2, doc="the panic message handed to the other side as (pointer, length) points into a value that is alive while the "
+      "receiver runs: an AbiErrorMsg whose pointer is taken from a local or an owned parameter is consumed in the function that owns that "
+      "value, never returned from it (the owner would be dropped first: the caller reads freed memory)")
+def a7(facts, tier):
+    from ..flow import parent_map
+    for fid, f in sorted(facts.fns.items()):
+        if f["crate"] != "savefile_abi" or not f.get("body"):
+            continue
+        n_site = 0
+        for x in walk(f["body"]):
+            if not (x.get("k") == "Adt" and (x.get("adt") or "").endswith("AbiErrorMsg")):
+                continue
+            n_site += 1
+            ptr = next((fl["e"] for fl in x["fields"] if str(fl["f"]) == "error_msg_utf8"), None)
+            if ptr is None:
+                continue
+            src_vars = {y["v"] for y in walk(ptr) if y.get("k") == "Var"}
+            # is the message value (or something built from it) the function's result?
+            ret = f.get("ret") or ""
+            escapes = "AbiErrorMsg" in ret or "RawAbiCallResult" in ret
+            # owners: owned (by-value, non-reference) parameters and locals of the function
+            owned_params = {p["pat"]["v"] for p in f["params"] if p.get("pat") and p["pat"].get("k") == "Bind"
+                            and not (p.get("ty") or "").startswith(("&", "*"))}
+            # does the pointer derive (through lets) from an owned parameter / local String?
+            lets = {}
+            for y in walk(f["body"]):
+                if y.get("k") == "LetS" and y["pat"].get("k") == "Bind" and y.get("init") is not None:
+                    lets[y["pat"]["v"]] = y["init"]
+                if y.get("k") == "Assign" and peel(y["l"]).get("k") == "Var":
+                    lets.setdefault(peel(y["l"])["v"], y["r"])
+            roots, todo = set(), list(src_vars)
+            seen_ = set()
+            while todo:
+                v = todo.pop()
+                if v in seen_:
+                    continue
+                seen_.add(v)
+                if v in lets:
+                    vs = {z["v"] for z in walk(lets[v]) if z.get("k") == "Var"}
+                    # pattern-bound names inside if-let conditions
+                    todo.extend(vs)
+                    if not vs:
+                        roots.add(v)
+                else:
+                    roots.add(v)
+            for y in walk(f["body"]):
+                if y.get("k") == "Let":
+                    from .taint_rules import pat_binds
+                    bound = {b_["v"] for b_ in pat_binds(y["pat"])}
+                    if bound & seen_:
+                        roots |= {z["v"] for z in walk(y["e"]) if z.get("k") == "Var"}
+            from_owned = bool(roots & owned_params)
+            key = f"{fid}#{n_site}"
+            if escapes and from_owned:
+                yield ob(["C09"], "A7", key, "violation", where(f, x),
+                         f"{fid} returns an AbiErrorMsg whose pointer is taken from its by-value parameter `{sorted(roots & owned_params)[0].split('#')[0]}`: "
+                         f"that value is dropped when the function returns, so for a formatted panic message (a String payload) the caller "
+                         f"is handed a pointer into freed memory")
+            else:
+                yield ob(["C09"], "A7", key, "pass", where(f, x),
+                         f"{fid}: the message pointer is used while its source is alive" + (" (returned, but taken from borrowed or static data)" if escapes else ""))
+
+
+def _maxlen(r):
+    """largest number of bytes of a word of the (normalised) wire language; None = unbounded or unknown"""
+    k = r[0]
+    if k == "eps":
+        return 0
+    if k == "void":
+        return 0
+    if k == "ev":
+        s = r[1]
+        if isinstance(s, tuple) and s[0] == "B":
+            return s[1]
+        if isinstance(s, tuple) and s[0] in ("SEND", "CALL", "OWN"):
+            return 0
+        # 64-bit target (stated assumption): a packaged trait object is three pointers; a raw pointer is thin or fat
+        if isinstance(s, tuple) and s[0] == "PTO":
+            return 24
+        if isinstance(s, tuple) and s[0] == "PTRLEN":
+            return 16
+        if isinstance(s, tuple) and s[0] == "PTR":
+            t = str(s[1]) if len(s) > 1 else ""
+            return 16 if t.startswith(("dyn ", "[", "str")) else 8
+        return None
+    if k == "seq":
+        t = 0
+        for x in r[1]:
+            m = _maxlen(x)
+            if m is None:
+                return None
+            t += m
+        return t
+    if k == "alt":
+        ms = [_maxlen(x) for x in r[1]]
+        return None if any(m is None for m in ms) else max(ms or [0])
+    if k == "star":
+        m = _maxlen(r[1])
+        return 0 if m == 0 else None
+    return None
+
+
+def _fixed_buffers(body):
+    """[(var, N)] for `let var = [0u8; N]` in a body"""
+    out = []
+    for x in walk(body):
+        if x.get("k") == "LetS" and x["pat"].get("k") == "Bind" and x.get("init") is not None:
+            i = peel_block(peel(x["init"]))
+            if i.get("k") == "Repeat" and (i.get("ty") or "").startswith("[u8;"):
+                try:
+                    out.append((x["pat"]["v"], int(i.get("n")), x))
+                except (TypeError, ValueError):
+                    pass
+    return out
+
+
+@rule("A8", ["C09"], floor=20, doc="fixed-size message buffers of the generated trampolines hold the longest message written into them: where the caller "
+      "(arguments) or the callee (reply) uses a `[0u8; N]` stack buffer instead of a growable one, N is at least the maximal length of "
+      "the message language for that method (mask bits all 'serialize')")
+def a8(facts, tier):
+    W = wire.WireAnalysis(facts, abi_classifier)
+    for tname, methods in sorted(traits(facts).items()):
+        callee_fn = facts.fns.get(f"<(dyn {tname} + 'static) as savefile_abi::AbiExportable>::call")
+        if callee_fn is None:
+            continue
+        mn = [p["pat"]["v"] for p in callee_fn["params"] if p.get("pat") and p["pat"].get("k") == "Bind" and p["pat"]["v"].startswith("method_number#")]
+        for mname, cf in sorted(methods.items()):
+            idx = method_index(cf)
+            if idx is None:
+                continue
+            envb = {mn[0]: ("int", idx)} if mn else {}
+            g = {}
+            la, _ = langs(facts, cf, {"$guards": g})
+            lb, _ = langs(facts, callee_fn, dict(envb, **{"$guards": g}))
+            args_w, _after = split_at(la, lambda s: s == ("SEND",))
+            _args_r, reply_w = split_at(lb, lambda s: isinstance(s, tuple) and s[0] == "CALL")
+            for side, lang_, fn_, body in (("arguments", args_w, cf, cf["body"]), ("reply", reply_w, callee_fn, None)):
+                if body is None:
+                    # the arm of the callee's dispatch for this method number
+                    body = callee_fn["body"]
+                    for x in walk(callee_fn["body"]):
+                        if x.get("k") == "Match" and peel(x["e"]).get("k") == "Var" and mn and peel(x["e"])["v"] == mn[0]:
+                            for a in x["arms"]:
+                                if a["pat"].get("k") == "Const" and a["pat"].get("int") == idx:
+                                    body = a["body"]
+                bufs = _fixed_buffers(body)
+                key = f"{tname}::{mname}:{side}"
+                if not bufs:
+                    yield ob(["C09"], "A8", key, "pass", where(fn_), f"{side} of {mname} go through a growable buffer", nontrivial=False, program=tname)
+                    continue
+                ln = _maxlen(W.normalise(lang_, "w", None, g))
+                n = max(b[1] for b in bufs)
+                if ln is None:
+                    yield ob(["C09"], "A8", key, "undecided", where(fn_, bufs[0][2]),
+                             f"{side} of {mname}: a {n}-byte stack buffer is used but the message length is not bounded by the analysis", program=tname)
+                else:
+                    ok = ln <= n
+                    yield ob(["C09"], "A8", key, "pass" if ok else "violation", where(fn_, bufs[0][2]),
+                             f"{side} of {mname}: at most {ln} bytes go into a {n}-byte stack buffer" if ok else
+                             f"{tname}::{mname}: the {side} message can be {ln} bytes long but is written into a {n}-byte stack buffer: the write "
+                             f"fails ('failed to write whole buffer') for the longer alternative and the call panics instead of delivering the value",
+                             program=tname)
